@@ -115,6 +115,10 @@ class Prov:
         if op == 'call':
             return ('call', ins.extra.get('callee'), ins)
         if op == 'phi':
+            inc = ins.extra['incoming']
+            if len(inc) == 1 and depth < 40:
+                # a join that lost its other inputs (a return join threaded away): the value itself
+                return self.expr(inc[0][0], depth + 1)
             return ('phi', ins.res, ins)
         if op == 'icmp' or op == 'fcmp':
             return ('icmp', ins.extra['pred'], self.expr(ins.ops[0], depth), self.expr(ins.ops[1], depth))
